@@ -599,8 +599,15 @@ func (server *SugarDB) adjustMemoryUsage(ctx context.Context) error {
 		for {
 			// Get random volatile key
 			server.keysWithExpiry.rwMutex.RLock()
-			idx := rand.Intn(len(server.keysWithExpiry.keys))
-			key := server.keysWithExpiry.keys[database][idx]
+			volatileKeys := server.keysWithExpiry.keys[database]
+			// If there are no volatile keys in the database, return error
+			if len(volatileKeys) == 0 {
+				server.keysWithExpiry.rwMutex.RUnlock()
+				err := errors.New("no volatile keys to evict")
+				return fmt.Errorf("adjustMemoryUsage -> volatile keys random: %+v", err)
+			}
+			idx := rand.Intn(len(volatileKeys))
+			key := volatileKeys[idx]
 			server.keysWithExpiry.rwMutex.RUnlock()
 
 			if !server.isInCluster() {
